@@ -14,7 +14,9 @@ model are NOT decided.  Decided:
  R3  damping centre: the noise-free fixed point of the stochastic model is the zero bin of the
      energy axis; the deterministic approximation moves the particle by -sum_k o_k w_k, i.e. by the
      first moment of the stencil (whose centre is proved under C04);
- R4  table reads in FokkerPlanckMap::applyTo stay inside their extents under the invariant of R1.
+ R4  table reads in FokkerPlanckMap::applyTo stay inside their extents under the invariant of R1;
+ R5  in every apply() main can call, nothing that the class's applyTo() reads is changed after the grid has been moved: the particles
+     (moved right after the grid in main) see the displacement the charge saw.
 """
 import sympy as sp
 from .. import ast as A
@@ -233,6 +235,45 @@ def run(chk, prog):
         if x.kind == "load" and x.base == "_hinfo":
             chk.check(x.idx is not None and "_ip" in str(x.idx[0]), "R4", A.loc(fa, {"line": x.line}),
                       "stencil row read _hinfo[row*_ip+j] with row = floor(pos.y) bounded by the clamp invariant of R1 (row <= _ysize-1)", "FP::applyTo:hinfo-read")
+    # ---- R5: the particle is moved by the displacement the grid was just moved by ----------------------------------------------
+    # main applies a map to the grid and then to the particles (X->apply(); X->applyToAll(...)): between the transport inside apply()
+    # and its return, nothing may change a field the class's applyTo reads (a kick prepared "for the next step" at the end of apply()
+    # would move the particles by another displacement than the charge around them).
+    n5 = 0
+    for c in sorted(classes):
+        af = eff.resolve_callee("vfps::SourceMap::apply()", "vfps::SourceMap::apply", c)
+        tf = eff.resolve_callee("vfps::SourceMap::applyTo(vfps::PhaseSpace::Position &) const", "vfps::SourceMap::applyTo", c)
+        A.require(af is not None and af.get("body") and tf is not None, "apply/applyTo override for %s not found" % c)
+        chk.used(af)
+        tracked_reads = {fld for (o, fld, sel) in eff.summary(tf, c).reads if o == "this"}
+        sa_ = I.scan(af)
+        transports = [cl for cl in sa_.calls if (cl.callee or "").split("::")[-1] == "apply" and (cl.callee or "") != af["qname"] and
+                      cl.obj is not None and A.is_this(cl.obj)]
+        tseq = [cl.seq for cl in transports] + [a.seq for a in sa_.accesses if a.kind == "store" and a.base == "data_out"]
+        if not tseq:
+            continue
+        last = max(tseq)
+        late = {}
+        for cl in sa_.calls:
+            if cl.seq <= last:
+                continue
+            callee = prog.functions.get(cl.sig) if cl.sig else None
+            if callee is not None and callee.get("body") and cl.obj is not None and A.is_this(cl.obj):
+                cf = eff.resolve_callee(cl.sig, cl.callee, c)
+                for (o, fld, sel) in eff.summary(cf, c).writes:
+                    if o == "this" and fld in tracked_reads:
+                        late.setdefault(fld, set()).add("%s (line %d)" % (cl.callee.split("::")[-1], cl.line))
+            elif cl.obj is not None and A.this_field(cl.obj) in tracked_reads and (cl.callee or "").split("::")[-1] in E.NONCONST_CONTAINER:
+                late.setdefault(A.this_field(cl.obj), set()).add("%s (line %d)" % (cl.callee.split("::")[-1], cl.line))
+        for a in sa_.accesses:
+            if a.kind == "store" and a.seq > last and a.base in tracked_reads:
+                late.setdefault(a.base, set()).add("store (line %d)" % a.line)
+        n5 += 1
+        chk.check(not late, "R5", af.where,
+                  "%s::apply() (used for %s): after it has moved the grid it changes nothing that applyTo() reads (%s)%s"
+                  % (af["qname"].split("::")[-2], c.split("::")[-1], sorted(tracked_reads)[:6], "" if not late else ": " + "; ".join("%s by %s" % (k_, sorted(v_)) for k_, v_ in sorted(late.items()))),
+                  "%s::apply:changes-tracking-state-after-transport:%s" % (af["qname"].split("::")[-2], sorted(late)))
+    chk.floor("R5-apply-overriders", n5, 4)
     chk.notes.append("C15: clamping of every assigned coordinate on every CFG path of every applyTo overrider reachable from main, direction agreement of "
                      "particle and grid displacement, damping fixed point. NOT decided: centroid coincidence, ensemble statistics.")
 
